@@ -872,6 +872,7 @@ Proof.
   unfold send. destruct (apply_sd checked error_page sd (add_alt_svc secure alt r)) as [a|e|] eqn:E; cbn [obind].
   - right. destruct p; [eexists; reflexivity|]. destruct (h2_refuses _); eexists; reflexivity.
   - exfalso. unfold apply_sd in E. destruct sd as [rg|e'|]; try discriminate.
+    destruct (rs_status _ =? 304); [discriminate|].
     destruct (apply_range checked rg _ _); discriminate.
   - left. reflexivity.
 Qed.
@@ -906,6 +907,7 @@ Proof.
     pose proof (serve_range_no_panic checked hdr (rs_body r) Hlen) as NP. unfold serve_range in NP.
     destruct path_ok; [|discriminate].
     destruct (sanitize_range hdr) as [rg|e|]; try discriminate; [|exact (NP eq_refl)].
+    destruct (rs_status r =? 304); [discriminate|].
     destruct (apply_range checked rg (rs_status r) (rs_body r)) eqn:A; try discriminate.
     apply apply_range_panic_status in A. rewrite A in NP. exact (NP eq_refl).
 Qed.
